@@ -127,9 +127,28 @@ func newList(elem int) listAPI {
 type inst struct {
 	l    listAPI
 	init []int
+	// the twin: a second list of the same element type that every thread uses alternately with
+	// the first (one Push before, one Pop after each operation).  Two lists share nothing, so the
+	// twin must neither lose, duplicate nor invent a value.
+	tw  listAPI
+	twl [16]struct{ pushed, popped []int }
+	// the probe thread runs while the others are frozen in the middle of their operations: it
+	// keeps its hands off the twin (a frozen twin Push would make it wait for ever)
+	probe int
 }
 
 func (x *inst) Do(t int, op sim.Op) sim.Rec {
+	if x.tw != nil && t < len(x.twl) && t != x.probe {
+		l := &x.twl[t]
+		v := 0x100000 + t<<12 + len(l.pushed)
+		x.tw.Push(v)
+		l.pushed = append(l.pushed, v)
+		defer func() {
+			if v, ok := x.tw.Pop(); ok {
+				l.popped = append(l.popped, v)
+			}
+		}()
+	}
 	var r sim.Rec
 	switch op.Op {
 	case "Push":
@@ -221,13 +240,19 @@ func gen(r *sim.Rng, tier string) *sim.Case {
 	if r.Pct(50) {
 		c.Sched.TickPct = []int{2, 10, 30}[r.N(3)]
 	}
+	if r.Pct(8) {
+		c.Params["twin"] = 1 // a second list is used alternately by every thread
+	}
 	c.Params["elem"] = r.Pick(6, 2, 3, 2, 1) // element type: int, string, three-word struct, pointer, interface
 	c.EnvSeed = r.U64() >> 12
 	return c
 }
 
 func build(c *sim.Case) enga.Instance {
-	x := &inst{l: newList(c.P("elem"))}
+	x := &inst{l: newList(c.P("elem")), probe: c.Sched.Probe}
+	if c.P("twin") == 1 {
+		x.tw = newList(c.P("elem"))
+	}
 	for i := 0; i < c.P("init"); i++ {
 		v := 0xF000 + i + 1
 		x.l.Push(v)
@@ -334,6 +359,42 @@ func check(run *enga.Run) *sim.Violation {
 		run.Out.Probes["blocking_popwait_on_empty_list"]++
 		// the spinning PopWait calls stay pending; nothing more can be said about Len
 	case core.EndFrozen, core.EndComplete:
+		if res.End == core.EndComplete && x.tw != nil {
+			run.Out.Probes["twin_instance_used_alternately"]++
+			const tsite = "listz.(*SyncList)"
+			want, got := map[int]bool{}, map[int]int{}
+			for t := range x.twl {
+				for _, v := range x.twl[t].pushed {
+					want[v] = true
+				}
+				for _, v := range x.twl[t].popped {
+					got[v]++
+				}
+			}
+			if n := x.tw.Len(); n != len(want)-len(got) {
+				return &sim.Violation{Class: "quiescent_mismatch", Site: tsite + ".Len", Detail: fmt.Sprintf("twin list (used alternately with the first by every thread): Len() = %d with %d values stored", n, len(want)-len(got))}
+			}
+			for i := 0; i < 1000; i++ {
+				v, ok := x.tw.Pop()
+				if !ok {
+					break
+				}
+				got[v]++
+			}
+			for v, n := range got {
+				if !want[v] {
+					return &sim.Violation{Class: "value_invented", Site: tsite + ".Pop", Detail: fmt.Sprintf("twin list delivered %#x, which nobody pushed to it", v)}
+				}
+				if n > 1 {
+					return &sim.Violation{Class: "value_duplicated", Site: tsite + ".Pop", Detail: fmt.Sprintf("twin list delivered %#x %d times", v, n)}
+				}
+			}
+			for v := range want {
+				if got[v] == 0 {
+					return &sim.Violation{Class: "value_lost", Site: tsite + ".Push", Detail: fmt.Sprintf("twin list lost %#x", v)}
+				}
+			}
+		}
 		if probe >= 0 {
 			pl, pd := recs[probe][0], recs[probe][1]
 			if !pl.Done || !pd.Done {
